@@ -15,7 +15,7 @@ use crate::backend::MemB;
 #[allow(unused_imports)]
 use any_vec::mem::MemBuilder;
 use any_vec::{AnyVec, ElementIterator, SatisfyTraits};
-use simcore::env::POISON;
+use simcore::env::{DEAD, POISON, SPARE_POISON};
 use simcore::registry::{harness, lib};
 use simcore::types::*;
 use std::any::TypeId;
@@ -286,7 +286,7 @@ pub fn typed_ptr<E: Elem, Tr: ?Sized + TrSet, M: MemB>(v: &AnyVec<Tr, M>) -> *co
 pub fn snapshot_of<E: Elem, Tr: ?Sized + TrSet, M: MemB>(v: &AnyVec<Tr, M>) -> Snap {
     let len = lib(|| v.len());
     let cap = lib(|| v.capacity());
-    let mut s = Snap { exists: true, len, cap, tags: Vec::new(), views_ok: true, aligned: true, len_le_cap: len <= cap, storage_addr: 0, object_guards_ok: true };
+    let mut s = Snap { exists: true, len, cap, tags: Vec::new(), views_ok: true, aligned: true, len_le_cap: len <= cap, storage_addr: 0, object_guards_ok: true, spare_bad: None };
     let base = typed_ptr::<E, Tr, M>(v);
     if base.is_null() {
         s.views_ok = false;
@@ -323,19 +323,47 @@ pub fn snapshot_of<E: Elem, Tr: ?Sized + TrSet, M: MemB>(v: &AnyVec<Tr, M>) -> S
     s
 }
 
-/// Fill the spare capacity with poison (legal: the API hands it out as MaybeUninit).
-pub fn poison_spare<E: Elem, Tr: ?Sized + TrSet, M: MemB>(v: &mut AnyVec<Tr, M>) {
+/// Fill the spare capacity with poison (legal: the API hands it out as MaybeUninit). The byte
+/// depends on the slot index, so that a copy of one spare slot into another is recognisable.
+pub fn poison_spare<E: Elem, Tr: ?Sized + TrSet, M: MemB>(v: &mut AnyVec<Tr, M>) -> bool {
     let len = v.len();
     let cap = v.capacity();
     let size = size_of::<E>();
-    if size == 0 || len > cap || cap > (1 << 24) {
-        return;
+    if size == 0 || len > cap || cap > (1 << 22) {
+        return false;
     }
     let base = match lib(|| v.downcast_mut::<E>()) {
         Some(mut t) => lib(|| t.as_mut_ptr()) as *mut u8,
-        None => return,
+        None => return false,
     };
-    unsafe { std::ptr::write_bytes(base.add(len * size), POISON, (cap - len) * size) };
+    for j in len..cap {
+        unsafe { std::ptr::write_bytes(base.add(j * size), SPARE_POISON[j % 4], size) };
+    }
+    true
+}
+
+/// Inspect the spare capacity that was poisoned after the previous step: every slot must still
+/// hold its poison, fresh-storage fill, a destroyed value, or a whole element copy. Anything
+/// else (guard-zone bytes, another slot's poison, torn values) shows that the library copied
+/// bytes from outside the initialised elements or outside the capacity.
+pub fn scan_spare<E: Elem>(base: *const u8, len: usize, cap: usize) -> Option<usize> {
+    let size = size_of::<E>();
+    if size == 0 || len > cap || cap > (1 << 22) {
+        return None;
+    }
+    for j in len..cap {
+        let p = unsafe { std::slice::from_raw_parts(base.add(j * size), size) };
+        let first = p[0];
+        let uniform = p.iter().all(|b| *b == first);
+        if uniform && (first == SPARE_POISON[j % 4] || first == POISON || first == DEAD) {
+            continue;
+        }
+        if unsafe { E::read_tag(p.as_ptr()) } != simcore::registry::INVALID_TAG {
+            continue;
+        }
+        return Some(j);
+    }
+    None
 }
 
 pub fn put_fresh<E: Elem, Tr: ?Sized + TrSet, M: MemB>(dst: &mut AnyVec<Tr, M>, r: &RStep, cx: &mut Cx<E>) {
@@ -971,6 +999,38 @@ pub fn push_run<E: Elem, Tr: ?Sized + TrSet, M: MemB>(v: &mut AnyVec<Tr, M>, r: 
     }
 }
 
+/// C17 on the zero-capacity `Empty` back end: decompose, (clone the parts), rebuild, and use the
+/// rebuilt vector as a prototype for a real one.
+pub fn empty_probe<E: Elem + SatisfyTraits<Tr>, Tr: ?Sized + TrSet>(clone_parts: bool, tag: u64, ev: &mut Vec<Ev>) {
+    use any_vec::mem::Empty;
+    let layout = std::alloc::Layout::new::<E>();
+    let v: AnyVec<Tr, Empty> = lib(|| AnyVec::new_in::<E>(Empty));
+    let mut ok = lib(|| v.len()) == 0 && lib(|| v.capacity()) == 0 && lib(|| v.element_typeid()) == TypeId::of::<E>() && lib(|| v.element_layout()) == layout;
+    let parts = lib(|| v.into_raw_parts());
+    let parts = if clone_parts { lib(|| parts.clone()) } else { parts };
+    ok &= parts.len == 0
+        && parts.capacity == 0
+        && parts.element_layout == layout
+        && parts.element_typeid == TypeId::of::<E>()
+        && parts.element_drop.is_some() == std::mem::needs_drop::<E>();
+    let v2: AnyVec<Tr, Empty> = lib(|| unsafe { AnyVec::from_raw_parts(parts) });
+    ok &= lib(|| v2.len()) == 0 && lib(|| v2.capacity()) == 0 && lib(|| v2.element_typeid()) == TypeId::of::<E>() && lib(|| v2.element_layout()) == layout;
+    ok &= lib(|| v2.downcast_ref::<E>()).is_some() && lib(|| v2.downcast_ref::<Wrong>()).is_none();
+    // the rebuilt vector still knows how to destroy (and clone) its element type
+    let mut w = lib(|| v2.clone_empty_in(SimBuilder));
+    lib(|| w.push(AnyValueWrapper::new(E::make(tag))));
+    let s = snapshot_of::<E, Tr, SimBuilder>(&w);
+    ok &= s.tags == vec![tag];
+    if let Some(c) = Tr::clone_vec(&w) {
+        let sc = snapshot_of::<E, Tr, SimBuilder>(&c);
+        ok &= sc.tags == vec![tag];
+        lib(|| drop(c));
+    }
+    lib(|| drop(w));
+    lib(|| drop(v2));
+    ev.push(Ev::Bool(ok));
+}
+
 /// C04: offer values of a wrong runtime type (a distinct type with identical layout) at every
 /// checked entry point; downcast / report probes.
 pub fn type_probe_step<E: Elem, Tr: ?Sized + TrSet, M: MemB>(v: &mut AnyVec<Tr, M>, r: &RStep, cx: &mut Cx<E>)
@@ -1113,6 +1173,8 @@ where
     diag: String,
     /// slots whose inline storage was observed misaligned: never touched through typed code again
     bad: [bool; 3],
+    /// spare capacity of the slot was poisoned by the harness and the vector instance is unchanged since
+    scan_ready: [bool; 3],
     free_place: bool,
     poison: bool,
     _m: PhantomData<E>,
@@ -1223,7 +1285,7 @@ where
     Twin<E>: SatisfyTraits<Tr>,
 {
     pub fn new(id: u32) -> Self {
-        World { id, a0: None, a1: None, b: None, pool: Vec::new(), diag: String::new(), bad: [false; 3], free_place: false, poison: true, _m: PhantomData }
+        World { id, a0: None, a1: None, b: None, pool: Vec::new(), diag: String::new(), bad: [false; 3], scan_ready: [false; 3], free_place: false, poison: true, _m: PhantomData }
     }
 
     fn exec_inner(&mut self, r: &RStep, ev: &mut Vec<Ev>) {
@@ -1364,6 +1426,7 @@ where
                     }
                 }
             },
+            Op::RawTrip if r.form >= 2 => empty_probe::<E, Tr>(r.form == 3, r.tags.first().copied().unwrap_or(0), ev),
             Op::RawTrip => match r.slot {
                 0 => {
                     if let Some(p) = self.a0.take() {
@@ -1574,6 +1637,13 @@ where
     fn exec(&mut self, r: &RStep) -> Vec<Ev> {
         let mut ev: Vec<Ev> = Vec::with_capacity(8);
         self.diag.clear();
+        match r.op {
+            Op::New | Op::DropVec | Op::RawTrip => self.scan_ready[r.slot] = false,
+            Op::CloneVec | Op::CloneEmpty | Op::CloneEmptyIn => {
+                self.scan_ready = [false; 3];
+            }
+            _ => {}
+        }
         let res = catch_unwind(AssertUnwindSafe(|| self.exec_inner(r, &mut ev)));
         if let Err(payload) = res {
             ev.push(Ev::Panic);
@@ -1597,7 +1667,10 @@ where
                     if !s.aligned {
                         self.bad[slot] = true;
                     } else if poison {
-                        poison_spare::<E, Tr, MA>(p.get());
+                        if self.scan_ready[slot] && s.len_le_cap && s.storage_addr != 0 {
+                            s.spare_bad = scan_spare::<E>(s.storage_addr as *const u8, s.len, s.cap);
+                        }
+                        self.scan_ready[slot] = poison_spare::<E, Tr, MA>(p.get());
                     }
                     s
                 }
@@ -1610,7 +1683,10 @@ where
                     if !s.aligned {
                         self.bad[slot] = true;
                     } else if poison {
-                        poison_spare::<E, Tr, MA>(p.get());
+                        if self.scan_ready[slot] && s.len_le_cap && s.storage_addr != 0 {
+                            s.spare_bad = scan_spare::<E>(s.storage_addr as *const u8, s.len, s.cap);
+                        }
+                        self.scan_ready[slot] = poison_spare::<E, Tr, MA>(p.get());
                     }
                     s
                 }
@@ -1623,7 +1699,10 @@ where
                     if !s.aligned {
                         self.bad[slot] = true;
                     } else if poison {
-                        poison_spare::<E, Tr, MB>(p.get());
+                        if self.scan_ready[slot] && s.len_le_cap && s.storage_addr != 0 {
+                            s.spare_bad = scan_spare::<E>(s.storage_addr as *const u8, s.len, s.cap);
+                        }
+                        self.scan_ready[slot] = poison_spare::<E, Tr, MB>(p.get());
                     }
                     s
                 }
@@ -1649,6 +1728,7 @@ where
             }
         }
         self.bad[slot] = false;
+        self.scan_ready[slot] = false;
     }
     fn pool_tags(&self) -> Vec<u64> {
         self.pool.iter().map(|x| x.tag()).collect()
@@ -1668,6 +1748,7 @@ where
             std::mem::forget(self.b.take());
         }
         self.bad = [false; 3];
+        self.scan_ready = [false; 3];
         let r = catch_unwind(AssertUnwindSafe(|| {
             kill(&mut self.a0);
             kill(&mut self.a1);
